@@ -9113,19 +9113,19 @@ bool SoPlexBase<R>::_parseSettingsLine(char* line, const int lineNumber)
          {
             Real value;
 
-            try
-            {
+            // std::stod throws for subnormal values (which saveSettingsFile() may have written): parse with strtod
+            char* valueEnd = nullptr;
 #ifdef WITH_LONG_DOUBLE
-               value = std::stold(paramValueString);
+            value = strtold(paramValueString, &valueEnd);
 #else
 #ifdef WITH_FLOAT
-               value = std::stof(paramValueString);
+            value = strtof(paramValueString, &valueEnd);
 #else
-               value = std::stod(paramValueString);
+            value = strtod(paramValueString, &valueEnd);
 #endif
 #endif
-            }
-            catch(const std::exception&)
+
+            if(valueEnd == paramValueString || *valueEnd != '\0')
             {
                SPX_MSG_INFO1(spxout, spxout << "Error parsing settings file: invalid value <" << paramValueString
                              << "> for real parameter <" << paramName << ">.\n");
@@ -9638,19 +9638,19 @@ bool SoPlexBase<R>::parseSettingsString(char* string)
          {
             Real value;
 
-            try
-            {
+            // std::stod throws for subnormal values (which saveSettingsFile() may have written): parse with strtod
+            char* valueEnd = nullptr;
 #ifdef WITH_LONG_DOUBLE
-               value = std::stold(paramValueString);
+            value = strtold(paramValueString, &valueEnd);
 #else
 #ifdef WITH_FLOAT
-               value = std::stof(paramValueString);
+            value = strtof(paramValueString, &valueEnd);
 #else
-               value = std::stod(paramValueString);
+            value = strtod(paramValueString, &valueEnd);
 #endif
 #endif
-            }
-            catch(const std::exception&)
+
+            if(valueEnd == paramValueString || *valueEnd != '\0')
             {
                SPX_MSG_INFO1(spxout, spxout << "Error parsing setting string: invalid value <" << paramValueString
                              << "> for real parameter <" << paramName << ">.\n");
